@@ -13,6 +13,7 @@ CONSTANTS
   SignedArm = TRUE
   AtomicWrites = FALSE
   WriteLock = TRUE
+  AtomicDown = TRUE
   CompleteOnDownError = TRUE
   MaxFaults = 0
   MaxCancels = 0
